@@ -84,7 +84,15 @@ fn focus_case(tier: Tier) -> BoxedStrategy<Case> {
 
 fn worker(ctx: &Ctx) -> WorkerResult {
     use proptest::prelude::*;
-    let strat = prop_oneof![2 => case_strategy(&profile(ctx.tier), false), 3 => focus_case(ctx.tier)].boxed();
+    // a share of the general histories starts on a foreign file, some with tolerated deviations
+    let general = (case_strategy(&profile(ctx.tier), true), proptest::option::weighted(0.25, (any::<u64>(), proptest::collection::vec((any::<u8>(), any::<u16>()), 1..4))))
+        .prop_map(|(mut c, dv)| {
+            if let Some((seed, devs)) = dv {
+                c.start = Start::Deviant { seed, devs };
+            }
+            c
+        });
+    let strat = prop_oneof![2 => general, 3 => focus_case(ctx.tier)].boxed();
     run_worker(ctx, strat, report)
 }
 
